@@ -2110,12 +2110,11 @@ func (h *fsmHandler) established(ctx context.Context) (bgp.FSMState, *fsmStateRe
 			fsm.logger.Warn("Closed an accepted connection", slog.String("State", fsm.state.String()))
 		case err := <-reasonCh:
 			fsm.conn.Close()
-			// if recv goroutine hit an error and sent to
-			// stateReasonCh, then tx goroutine might take
-			// long until it exits because it waits for
-			// ctx.Done() or keepalive timer. So let kill
-			// it now.
-			h.outgoing.In() <- err
+			// The tx goroutine is stopped by the deferred cancel() on the way
+			// out. (A marker value used to be queued on the outgoing channel
+			// here to stop it; when the tx goroutine ended for another reason
+			// first, the marker stayed queued and silently ended the tx
+			// goroutine of the NEXT session.)
 			conf := fsm.pConf.ReadOnly()
 			if s := conf.GracefulRestart.State; s.Enabled {
 				if s.NotificationEnabled && err.Type == fsmNotificationRecv ||
